@@ -7,6 +7,7 @@ import (
 	"regexp"
 	"strconv"
 	"strings"
+	"time"
 
 	"github.com/form3tech-oss/f1/v2/internal/progress"
 	"github.com/form3tech-oss/f1/v2/internal/verifsim/simrt"
@@ -27,11 +28,12 @@ func writeTempYAML(content string) (string, error) {
 func removeTemp(p string) { os.Remove(p) }
 
 var (
-	reStarted = regexp.MustCompile(`(\d+) iterations started in`)
-	reSucc    = regexp.MustCompile(`Successful Iterations: (\d+) \(([0-9.]+|NaN|\+Inf)%`)
-	reFail    = regexp.MustCompile(`Failed Iterations: (\d+) \(([0-9.]+|NaN|\+Inf)%`)
-	reDrop    = regexp.MustCompile(`Dropped Iterations: (\d+) \(([0-9.]+|NaN|\+Inf)%`)
-	reProg    = regexp.MustCompile(`✔\s+(\d+)\s+(?:⦸\s+(\d+)\s+)?✘\s+(\d+)`)
+	reStarted  = regexp.MustCompile(`(\d+) iterations started in`)
+	reSucc     = regexp.MustCompile(`Successful Iterations: (\d+) \(([0-9.]+|NaN|\+Inf)%`)
+	reFail     = regexp.MustCompile(`Failed Iterations: (\d+) \(([0-9.]+|NaN|\+Inf)%`)
+	reDrop     = regexp.MustCompile(`Dropped Iterations: (\d+) \(([0-9.]+|NaN|\+Inf)%`)
+	reProgRate = regexp.MustCompile(`\((\d+)/s\)`)
+	reProg     = regexp.MustCompile(`✔\s+(\d+)\s+(?:⦸\s+(\d+)\s+)?✘\s+(\d+)`)
 )
 
 func h1OraclesMore(env *Env, c *H1Cfg, st *h1State, hr *h1Run, runIdx int, stats simrt.Stats,
@@ -317,6 +319,31 @@ func h1Output(env *Env, c *H1Cfg, hr *h1Run, stats simrt.Stats, timedOut, allEnd
 			}
 			if l.s < donePass || l.f < doneFail {
 				env.Violate("C19", "progress-count-behind", "output/progress", "progress line states ✔%d ✘%d although %d passing / %d failing iterations had finished before the previous line", l.s, l.f, donePass, doneFail)
+			}
+		}
+		// the per-period figures of a printed line: "(N/s)" is the period's successful count per second and
+		// "avg/min/max" its durations; the lifetime counts on consecutive lines give the period's count
+		if !l.structure && stats.Stalls == 0 && c.SlowOutputNs == 0 {
+			if m := reProgRate.FindStringSubmatch(l.text); m != nil {
+				rate, _ := strconv.ParseUint(m[1], 10, 64)
+				var prevS uint64
+				gap := int64(time.Second)
+				if prev != nil && !prev.structure {
+					prevS = prev.s
+					gap = hrTimeOfSeq(hr, l.seq) - hrTimeOfSeq(hr, prev.seq)
+				}
+				secs := float64(time.Duration(gap).Round(time.Second) / time.Second)
+				if prev == nil || !prev.structure {
+					if secs > 0 && gap%int64(time.Second) == 0 {
+						want := uint64(math.Round(float64(l.s-prevS) / secs))
+						if rate != want && !(prev == nil && g.Cancelled) {
+							env.Violate("C19", "progress-rate-mismatch", "output/progress", "progress line states (%d/s) but the successful count grew by %d in the %.0fs since the previous line (%s)", rate, l.s-prevS, secs, truncate(l.text, 200))
+						}
+					}
+					if l.s == prevS && !strings.Contains(l.text, "avg: 0s, min: 0s, max: 0s") {
+						env.Violate("C19", "progress-period-stats", "output/progress", "no iteration succeeded in the period but the line states durations: %s", truncate(l.text, 200))
+					}
+				}
 			}
 		}
 		prev = l
